@@ -467,7 +467,12 @@ fn transport_case(ctx: &Ctx, idx: u64, r: &mut Rng, out: &mut Outcome) {
         let mut t = Box::pin(TokioTransport::new(SharedIo(io.clone())));
         let mut expected_wire: Vec<u8> = Vec::new();
         let mut failed = false;
-        let budget = 200_000;
+        // every script cycle moves at least one byte; allow for the worst case (a cycle of
+        // Pending results followed by a single byte) with a wide margin, so that running out of
+        // polls really means "no progress"
+        let total_bytes: usize = frames.iter().map(|f| f.len()).sum();
+        let cycle = wscript.len().max(rscript.len()).max(fscript.len()) + 2;
+        let budget = (total_bytes + 64) * cycle * 4 + 200_000;
         'send: for (i, m) in msgs.iter().enumerate() {
             // ready
             let mut polls = 0;
